@@ -99,13 +99,15 @@ class Code3(Code2):
             while offset_diff >= 256:
                 co_lnotab += bytearray([255, 0])
                 offset_diff -= 255
-            while line_diff >= 256:
+            # A line increment is a signed byte from Python 3.6 on: chunks stay within
+            # 0..127, which every version reads the same way.
+            while line_diff >= 128:
                 # The address increment goes with the first line chunk: a pair with a
                 # zero address increment adds its lines to the *previous* address.
-                co_lnotab += bytearray([offset_diff, 255])
+                co_lnotab += bytearray([offset_diff, 127])
                 offset_diff = 0
-                line_diff -= 255
-            if 0 <= line_diff <= 256:
+                line_diff -= 127
+            if 0 <= line_diff <= 127:
                 # FIXME: should warn about dropping off a line number
                 co_lnotab += bytearray([offset_diff, line_diff])
 
